@@ -44,6 +44,11 @@ TplDev(d, t, k) == LET s == CHOOSE x \in Tpls(d, t) : x.driver = k[1] /\ x.pool 
 TplSlots(d, t, driver, pool) == DSum({s \in DRange(d.templates) : s.type = t /\ s.slots > 0 /\ s.driver = driver /\ s.pool = pool}, LAMBDA s : s.slots)
 HasTplSlots(d, t, driver, pool) == \E s \in DRange(d.templates) : s.type = t /\ s.slots > 0 /\ s.driver = driver /\ s.pool = pool
 
+(* A claim the cluster has allocated MIGRATES when its consumers (status.reservedFor) are all pods that are being rescheduled *)
+(* in this pass (`leaving` = their names): the pass re-allocates it and its old devices are free again.  A claim without pod   *)
+(* consumers, or with a non-pod consumer, stays where it is.  EffD forgets the allocations of the migrating claims.            *)
+MigratingC(c, leaving) == c.alloc # <<>> /\ c.reserved # <<>> /\ c.others = 0 /\ \A i \in DOMAIN c.reserved : c.reserved[i] \in leaving
+EffD(d, leaving) == [d EXCEPT !.claims = [i \in DOMAIN d.claims |-> IF MigratingC(d.claims[i], leaving) THEN [d.claims[i] EXCEPT !.alloc = <<>>] ELSE d.claims[i]]]
 \* what the cluster has already allocated: entries [k, consumed] of the claims that carry an allocation
 PreEntries(d) == UNION {{[claim |-> c.name, i |-> i, k |-> <<c.alloc[i].driver, c.alloc[i].pool, c.alloc[i].device>>, consumed |-> c.alloc[i].consumed] :
                             i \in DOMAIN c.alloc} : c \in DRange(d.claims)}
